@@ -232,6 +232,9 @@ Section Proofs.
                  nth_error (f_callers Res s) t2 = Some c2 -> cpc_of Res c2 = CHold Res o2 -> t1 = t2;
     out_done : body_past_done (f_body Res s) = true -> f_done Res s = true;
     out_hist : forall e o, In e (f_hist Res s) -> fc_ret Res e = FOut Res o -> f_outcome Res s = Some o /\ f_done Res s = true;
+    (* once delivered the outcome is never lost: it sits in the slot or with the one reader who is re-depositing it *)
+    out_live : body_delivered (f_body Res s) = true ->
+               f_chan Res s <> None \/ exists t c o, nth_error (f_callers Res s) t = Some c /\ cpc_of Res c = CHold Res o;
   }.
 
   Lemma init_out progs : IOut (finit progs).
@@ -248,10 +251,11 @@ Section Proofs.
     f_chan Res s' = f_chan Res s -> (f_done Res s = true -> f_done Res s' = true) ->
     f_callers Res s' = set_nth (f_callers Res s) t c' ->
     (forall o, cpc_of Res c' = CHold Res o -> cpc_of Res c = CHold Res o) ->
+    (forall o, cpc_of Res c = CHold Res o -> cpc_of Res c' = CHold Res o) ->
     (forall e, In e (f_hist Res s') -> In e (f_hist Res s) \/ forall o, fc_ret Res e <> FOut Res o) ->
     IOut s'.
   Proof.
-    intros [Ob Oc Oh Ou Od Ohist] Ht Hb Ho Hr Hch Hd Hcs Hc' Hh. pose proof (nth_some_lt _ _ _ Ht) as Hlt.
+    intros [Ob Oc Oh Ou Od Ohist Olive] Ht Hb Ho Hr Hch Hd Hcs Hc' Hkeep Hh. pose proof (nth_some_lt _ _ _ Ht) as Hlt.
     assert (forall u cu o, nth_error (f_callers Res s') u = Some cu -> cpc_of Res cu = CHold Res o ->
                            exists cu0, nth_error (f_callers Res s) u = Some cu0 /\ cpc_of Res cu0 = CHold Res o) as Back.
     { intros u cu o Hu Hp. rewrite Hcs in Hu. destruct (Nat.eq_dec t u) as [<-|Hne].
@@ -266,6 +270,10 @@ Section Proofs.
     - intros E. apply Hd, Od, E.
     - intros e o He Hre. destruct (Hh e He) as [Hin|Hno]; [|exfalso; exact (Hno o Hre)].
       destruct (Ohist e o Hin Hre) as [A B]. split; [exact A | apply Hd, B].
+    - intros E. destruct (Olive E) as [Hne|(u & cu & o & Hu & Hp)]; [left; exact Hne|]. right.
+      destruct (Nat.eq_dec t u) as [<-|Hne].
+      + rewrite Ht in Hu. injection Hu as <-. exists t, c', o. split; [rewrite Hcs, nth_set_same by exact Hlt; reflexivity | apply Hkeep; exact Hp].
+      + exists u, cu, o. split; [rewrite Hcs, nth_set_other by exact Hne; exact Hu | exact Hp].
   Qed.
 
   Lemma out_caller_take s s' t c c' o :
@@ -276,7 +284,7 @@ Section Proofs.
     f_hist Res s' = f_hist Res s ->
     IOut s'.
   Proof.
-    intros [Ob Oc Oh Ou Od Ohist] Ht Hb Ho Hr Hch Hch' Hd Hcs Hc' Hh. pose proof (nth_some_lt _ _ _ Ht) as Hlt.
+    intros [Ob Oc Oh Ou Od Ohist Olive] Ht Hb Ho Hr Hch Hch' Hd Hcs Hc' Hh. pose proof (nth_some_lt _ _ _ Ht) as Hlt.
     destruct (Oc o Hch) as [Bd Oo].
     assert (forall u cu o', nth_error (f_callers Res s') u = Some cu -> cpc_of Res cu = CHold Res o' -> u = t /\ o' = o) as Only.
     { intros u cu o' Hu Hp. rewrite Hcs in Hu. destruct (Nat.eq_dec t u) as [<-|Hne].
@@ -289,6 +297,7 @@ Section Proofs.
     - intros t1 c1 o1 t2 c2 o2 H1 P1 H2 P2. destruct (Only _ _ _ H1 P1) as [-> _]. destruct (Only _ _ _ H2 P2) as [-> _]. reflexivity.
     - exact Od.
     - exact Ohist.
+    - intros _. right. exists t, c', o. split; [rewrite Hcs, nth_set_same by exact Hlt; reflexivity | exact Hc'].
   Qed.
 
   Lemma out_caller_put s s' t c c' o e :
@@ -299,7 +308,7 @@ Section Proofs.
     f_hist Res s' = e :: f_hist Res s -> fc_ret Res e = FOut Res o ->
     IOut s'.
   Proof.
-    intros [Ob Oc Oh Ou Od Ohist] Ht Hp Hb Ho Hr Hch' Hd Hcs Hc' Hh He. pose proof (nth_some_lt _ _ _ Ht) as Hlt.
+    intros [Ob Oc Oh Ou Od Ohist Olive] Ht Hp Hb Ho Hr Hch' Hd Hcs Hc' Hh He. pose proof (nth_some_lt _ _ _ Ht) as Hlt.
     destruct (Oh t c o Ht Hp) as (Bd & Oo & Cn).
     assert (forall u cu o', nth_error (f_callers Res s') u = Some cu -> cpc_of Res cu = CHold Res o' -> False) as Nobody.
     { intros u cu o' Hu Hq. rewrite Hcs in Hu. destruct (Nat.eq_dec t u) as [<-|Hne].
@@ -314,6 +323,7 @@ Section Proofs.
     - intros e' o' [<-|Hin] Hre.
       + rewrite He in Hre. injection Hre as <-. split; [exact Oo | apply Od]. destruct (f_body Res s); try discriminate; reflexivity.
       + exact (Ohist e' o' Hin Hre).
+    - intros _. left. discriminate.
   Qed.
 
   Lemma step_out s w s' : IOut s -> fstep s w = Some s' -> IOut s'.
@@ -324,12 +334,13 @@ Section Proofs.
     all: try solve [ eapply out_caller_plain; [exact I | exact Ht | try reflexivity ..];
                      [ cbn; intros; first [assumption | reflexivity | symmetry; assumption] ..
                      | cbn [cpc_of]; intros o' E; first [discriminate | rewrite Hpc; exact E]
+                     | rewrite Hpc; intros o' E; discriminate
                      | cbn [f_hist finish]; first [ intros e He; left; exact He
                                                    | intros e [<-|He]; [right; cbn; discriminate | left; exact He] ] ] ].
     all: try solve [ eapply out_caller_take; [exact I | exact Ht | try reflexivity ..]; first [exact Hch | reflexivity] ].
     all: try solve [ eapply out_caller_put; [exact I | exact Ht | exact Hpc | try reflexivity ..]; cbn; first [discriminate | reflexivity] ].
     (* the body steps *)
-    all: destruct I as [Ob Oc Oh Ou Od Ohist]; unfold body_outcome_ok in Ob; rewrite Hb in *; cbn [body_delivered body_past_done] in *.
+    all: destruct I as [Ob Oc Oh Ou Od Ohist Olive]; unfold body_outcome_ok in Ob; rewrite Hb in *; cbn [body_delivered body_past_done] in *.
     all: constructor; unfold body_outcome_ok; cbn [f_body f_outcome f_runs f_chan f_callers f_done f_hist body_delivered body_past_done].
     all: try exact Ou; try exact Ohist; try exact Od; try exact Ob.
     all: try solve [ destruct Ob as [A B]; split; [congruence | first [rewrite B; reflexivity | exact B]] ].
@@ -338,6 +349,7 @@ Section Proofs.
     all: try solve [ discriminate ]; try solve [ reflexivity ]; try solve [ auto ].
     all: try solve [ intros e o' He Hr; destruct (Ohist e o' He Hr) as [A B]; destruct Ob as [Ob1 _]; first [congruence | split; [exact A | reflexivity]] ].
     all: try solve [ intros o0 [= <-]; split; [reflexivity | apply Ob] ].
+    all: try solve [ intros _; left; discriminate ].
   Qed.
 
   (** ---- the critical sections of Cancel and of the status predicates ---- *)
@@ -556,6 +568,74 @@ Section Proofs.
     induction sched as [|w r IH]; intros s I; simpl; [exact I|].
     destruct (fstep s w) as [s'|] eqn:E; [apply IH; eapply step_inv; eauto | apply IH; exact I].
   Qed.
+
+
+  (** ---- no hang: whatever the state reached, as long as the body has not delivered or some caller
+      still has a call to make or to finish, SOME thread can move — nobody waits for ever for the
+      mutex or for an outcome that was delivered (a patient deref before delivery waits for the
+      body, which can always move) ---- *)
+  Lemma holder_or_idle (l : list caller) :
+    (exists t c o, nth_error l t = Some c /\ cpc_of Res c = CHold Res o) \/
+    (forall t c o, nth_error l t = Some c -> cpc_of Res c <> CHold Res o).
+  Proof.
+    induction l as [|c l IH].
+    - right. intros [|t] c o H; discriminate.
+    - destruct (cpc_of Res c) eqn:Hp;
+        try (destruct IH as [(t & c' & o' & Ht & Hc')|Hno];
+             [ left; exists (S t), c', o'; split; assumption
+             | right; intros [|t] c' o' H; simpl in H; [injection H as <-; rewrite Hp; discriminate | eapply Hno; eauto] ]).
+      left. exists 0, c, o. split; [reflexivity | exact Hp].
+  Qed.
+
+  Theorem future_deadlock_free s :
+    Inv s ->
+    (f_body Res s <> BEnd Res \/ exists t c, nth_error (f_callers Res s) t = Some c /\ (cpc_of Res c <> CIdle Res \/ ctodo Res c <> [])) ->
+    exists w s', fstep s w = Some s'.
+  Proof.
+    intros [L T O C H] Hwork.
+    destruct (f_mu Res s) as [[|h]|] eqn:Hmu.
+    - (* the body holds f.mu *)
+      apply (lk_body _ L) in Hmu. exists (0, false). unfold ConcFuture.fstep, body_step. cbn [fst].
+      destruct (f_body Res s); simpl in Hmu; try discriminate; eexists; reflexivity.
+    - (* caller h holds f.mu: all its steps are unconditional *)
+      pose proof (lk_dom _ L h Hmu) as Hlt. destruct (nth_error (f_callers Res s) h) as [c|] eqn:Hc; [|apply nth_error_None in Hc; lia].
+      apply (lk_caller _ L h c Hc) in Hmu. exists (S h, false). unfold ConcFuture.fstep, caller_step. cbn [fst snd]. rewrite Hc.
+      destruct (cpc_of Res c) as [|o|d|d b| |d| | | |b]; simpl in Hmu; try discriminate; try (eexists; reflexivity).
+      destruct d; eexists; reflexivity.
+    - (* f.mu is free *)
+      pose proof (out_chan _ O) as Oc. pose proof (out_live _ O) as Ol.
+      destruct (f_body Res s) as [|o|o|o|o|] eqn:Hb.
+      + exists (0, false). unfold ConcFuture.fstep, body_step. cbn [fst]. rewrite Hb. eexists; reflexivity.
+      + exists (0, false). unfold ConcFuture.fstep, body_step. cbn [fst]. rewrite Hb, Hmu. eexists; reflexivity.
+      + exfalso. assert (f_mu Res s = Some 0) by (apply (lk_body _ L); rewrite Hb; reflexivity). congruence.
+      + exfalso. assert (f_mu Res s = Some 0) by (apply (lk_body _ L); rewrite Hb; reflexivity). congruence.
+      + exists (0, false). unfold ConcFuture.fstep, body_step. cbn [fst]. rewrite Hb.
+        destruct (f_chan Res s) as [x|] eqn:Hch; [destruct (Oc x eq_refl) as [F _]; discriminate | eexists; reflexivity].
+      + (* delivered *)
+        destruct Hwork as [Hne|(t & c & Ht & Hc)]; [congruence|].
+        destruct (holder_or_idle (f_callers Res s)) as [(u & cu & o & Hu & Hp)|Hno].
+        * (* the reader who took the outcome can re-deposit it *)
+          destruct (out_hold _ O u cu o Hu Hp) as (_ & _ & Hch).
+          exists (S u, false). unfold ConcFuture.fstep, caller_step. cbn [fst snd]. rewrite Hu, Hp, Hch. eexists; reflexivity.
+        * destruct (Ol eq_refl) as [Hch|(u & cu & o & Hu & Hp)]; [|exfalso; exact (Hno u cu o Hu Hp)].
+          destruct (f_chan Res s) as [x|] eqn:Ech; [|congruence].
+          assert (cpc_of Res c = CIdle Res) as Hidle.
+          { destruct (locked_pc (cpc_of Res c)) eqn:El.
+            - apply (lk_caller _ L t c Ht) in El. congruence.
+            - destruct (cpc_of Res c) eqn:Ep; simpl in El; try discriminate; [reflexivity | exfalso; eapply Hno; eauto]. }
+          destruct Hc as [Hc|Hc]; [congruence|].
+          exists (S t, false). unfold ConcFuture.fstep, caller_step. cbn [fst snd]. rewrite Ht, Hidle.
+          destruct (ctodo Res c) as [|[ex|d|] r]; [congruence| | |].
+          -- rewrite Ech. destruct (ex && false); eexists; reflexivity.
+          -- rewrite Hmu. eexists; reflexivity.
+          -- rewrite Hmu. eexists; reflexivity.
+  Qed.
+
+  Corollary future_never_stuck progs sched :
+    let s := frun (finit progs) sched in
+    (f_body Res s <> BEnd Res \/ exists t c, nth_error (f_callers Res s) t = Some c /\ (cpc_of Res c <> CIdle Res \/ ctodo Res c <> [])) ->
+    exists w s', fstep s w = Some s'.
+  Proof. intros s. apply future_deadlock_free. apply run_inv. apply init_inv. Qed.
 
   (** ---- THE STATEMENTS OF C10, for every program of every caller and every schedule ---- *)
   Section Statements.
